@@ -577,6 +577,8 @@ type FuncContract struct {
 	Timeout   int
 	Notes     []string
 	Dispatch  []string // interface methods whose implementer contracts are imported as axioms
+	IterCanonical bool // the body must be the canonical iterator over the receiver's map
+	Frame     []string // frame directives (see frame.go)
 	NoInline  []string // callees that must not be inlined (havoc instead)
 }
 
@@ -641,7 +643,7 @@ var clauseKeywords = map[string]bool{
 	"props": true, "arith": true, "requires": true, "ensures": true, "loop": true,
 	"wraps": true, "inline": true, "pure": true, "trusted": true, "modifies": true,
 	"results": true, "params": true, "invariant": true, "decreases": true, "bag": true, "assert": true, "assume": true, "ghost": true, "safety": true,
-	"nosafety": true, "known": true, "note": true, "timeout": true, "calldepth": true, "dispatch": true, "noinline": true,
+	"nosafety": true, "known": true, "note": true, "timeout": true, "calldepth": true, "dispatch": true, "noinline": true, "itercanonical": true, "frame": true,
 }
 
 // parseContractLines parses the `//@` lines of one file. pkgPath is the Go
@@ -809,6 +811,10 @@ func (cs *ContractSet) parseContractLines(file, pkgPath string, lines []string, 
 				fmt.Sscan(rest, &cur.Timeout)
 			case "calldepth":
 				fmt.Sscan(rest, &cur.CallDepth)
+			case "itercanonical":
+				cur.IterCanonical = true
+			case "frame":
+				cur.Frame = append(cur.Frame, rest)
 			case "dispatch":
 				cur.Dispatch = append(cur.Dispatch, strings.Fields(strings.ReplaceAll(rest, ",", " "))...)
 			case "noinline":
